@@ -58,8 +58,8 @@ PROPS = {
                                                       'C07.content', 'C07.record', 'C07.roundtrip', 'C07.flag'], RULE_STEP, 4000, 300000,
               {'roundtrip': True, 'accessors': False, 'message': False}),
     'C08': _p(['classify'] * 15 + ['trunc'], ['C08.class', 'C08.config'], RULE_CLASSIFY, 4000, 300000, _STEP),
-    'C09': _p(['collection'], ['C09.fold', 'C09.strict', 'C09.nonstrict'], RULE_BATCH, 3000, 200000, _STEP),
-    'C10': _p(['collection'], ['C10.order', 'C10.perm', 'C10.sort'], RULE_BATCH, 3000, 200000, _STEP),
+    'C09': _p(['collection'] * 14 + ['bigbatch'], ['C09.fold', 'C09.strict', 'C09.nonstrict'], RULE_BATCH, 3000, 200000, _STEP),
+    'C10': _p(['collection'] * 14 + ['bigbatch'], ['C10.order', 'C10.perm', 'C10.sort'], RULE_BATCH, 3000, 200000, _STEP),
     'C11': _p(['collection'], ['C11.accept', 'C11.after'], RULE_BATCH, 3000, 200000, _STEP,
               variants=[{'flags': []}, {'flags': ['-O']}]),
     'C13': _p(['alias'], ['C13.msg-mutated', 'C13.reuse', 'C13.shared', 'C13.shared-edit', 'C13.history'], RULE_STEP, 3000, 200000,
@@ -72,7 +72,7 @@ PROPS = {
               {'roundtrip': False, 'accessors': True, 'message': False}),
     'C17': _p(['script', 'script', 'mixed'], ['C17.script', 'C17.body'], RULE_STATE, 3000, 200000,
               {'roundtrip': False, 'accessors': True, 'message': False}),
-    'C18': _p(['sources'], ['C18.source', 'C18.reader', 'C18.listing', 'C18.collection'], RULE_BATCH, 2500, 150000, _STEP),
+    'C18': _p(['sources'] * 14 + ['bigbatch'], ['C18.source', 'C18.reader', 'C18.listing', 'C18.collection'], RULE_BATCH, 2500, 150000, _STEP),
     'C19': _p(['cli'], ['C19.detect', 'C19.inspect', 'C19.merge'], RULE_CLI, 2500, 150000, _STEP),
     'C20': _p(['mixed', 'story', 'item'], ['C20.ids', 'C20.content', 'C20.inspect'], RULE_STEP, 4000, 300000,
               {'roundtrip': False, 'accessors': False, 'message': True}),
